@@ -252,6 +252,53 @@ func checkC17(c *core.Ctx) {
 			})
 		}
 	}
+	// a tensor that is the RESULT of operations (not a leaf) and received a gradient is stepped like any other
+	for li, l := range c17LRs {
+		for hi, hop := range []ref.Op{{K: "Scale", F: 2}, {K: "Tanh"}, {K: "Reshape", Shape: []int{3, 2}}, {K: "Add"}, {K: "Concat"}} {
+			l, hop, hi := l, hop, hi
+			c.Case(fmt.Sprintf("nonleaf/%s/lr%d", hop, li), true, func() core.Verdict {
+				x0 := enum.Generic([]int{2, 3}, uint64(580+hi), 0.5, 2, true)
+				x := rt.Make(x0, true)
+				in := []tensor.Tensor{x}
+				min := []*ref.T{x0}
+				if hop.Arity() != 1 {
+					in = append(in, rt.Make(x0, false))
+					min = append(min, x0)
+				}
+				h, err := rt.Apply(hop, in)
+				if err != nil {
+					return core.Fail("%s: %v", hop, err)
+				}
+				h0, _ := ref.Eval(hop, min)
+				cc := enum.Generic(h0.Shape, 590, 0.5, 3, true)
+				y, err := h.Mul(rt.Make(cc, false))
+				if err != nil {
+					return core.Fail("Mul: %v", err)
+				}
+				if err := tensor.BackPropagate(y); err != nil {
+					return core.Fail("BackPropagate: %v", err)
+				}
+				if h.Gradient() == nil {
+					return core.Fail("the intermediate tensor has no gradient after back-propagation")
+				}
+				p := h
+				if err := l.opt().Update(&p); err != nil {
+					return core.Fail("Update of a tensor that is the result of %s and has a gradient: %v", hop, err)
+				}
+				exp := ref.New(h0.Shape)
+				for i := range exp.V {
+					exp.V[i] = h0.V[i] - l.value()*cc.V[i]
+				}
+				if ok, msg := core.Close(rt.Read(p), exp, 10); !ok {
+					return core.Fail("Update of a tensor that is the result of %s: %s", hop, msg)
+				}
+				if ok, msg := core.ExactEq(rt.Read(h), h0); !ok {
+					return core.Fail("the stepped tensor itself changed: %s", msg)
+				}
+				return core.Pass()
+			})
+		}
+	}
 	// error paths
 	for li, l := range c17LRs {
 		l := l
@@ -436,6 +483,7 @@ func c18Alphabet(thorough bool) []initCall {
 func c18Sequence(seed uint64, calls []initCall) core.Verdict {
 	xrand.Seed(seed)
 	got := make([]*ref.T, len(calls))
+	var results []tensor.Tensor
 	for i, ic := range calls {
 		t, mustTrack, err := ic.run()
 		if err != nil {
@@ -447,9 +495,19 @@ func c18Sequence(seed uint64, calls []initCall) core.Verdict {
 		if !ref.SameShape(t.Shape(), ic.Shape) {
 			return core.Fail("call %d %s: shape %v", i, ic, t.Shape())
 		}
-		tr, _, _, _, _ := tensor.VerifGradState(t)
+		tr, spent, g0, edges, _ := tensor.VerifGradState(t)
 		if tr != mustTrack {
 			return core.Fail("call %d %s: tracked=%v, expected %v", i, ic, tr, mustTrack)
+		}
+		// a FRESH tensor: a new object, no gradient, not spent, no history
+		for j, prev := range results {
+			if prev == t {
+				return core.Fail("call %d %s returned the very tensor object that call %d returned (whatever the caller did with that one - a gradient, a back-propagation, a reset - shows on this one)", i, ic, j)
+			}
+		}
+		results = append(results, t)
+		if spent || g0 != nil || len(edges) != 0 {
+			return core.Fail("call %d %s: the returned tensor is not fresh: spent=%v, has gradient=%v, back edges=%d", i, ic, spent, g0 != nil, len(edges))
 		}
 		// behavioural tracking check: back-propagating a result gives the tensor a gradient
 		if mustTrack {
